@@ -20,7 +20,10 @@ class Run:
         self.prop = prop
         self.tier = tier
         self.level = level
-        self.t0 = time.time()
+        try:
+            self.t0 = float(os.environ.get("A5_T0", ""))
+        except ValueError:
+            self.t0 = time.time()
         self.instances = []
         self.controls = []  # (rule, control name, fired)
         self.notes = []
